@@ -9,7 +9,7 @@ out = ["# Seeded changes and which checks catch them", "",
  "Every change below was written by an independent sub-agent that saw only the text of one property and a scratch",
  "worktree of /repo (nothing from /verif). Each was re-confirmed in that scratch worktree (`tools/confirm_seed.sh`):",
  "the unedited 150-test suite passes with the change, the agent's demonstration test fails with it and passes without.",
- "Checks were run with `tools/try_seed.sh` (git apply to /repo, ./check <ID> quick, git checkout -- .).", "",
+ "Checks were run with `tools/try_seed.sh` / `tools/mut_sandbox.sh` (git apply, ./check <ID> quick, git checkout -- .): the own check of the seed's property and the", "checks that were seen to catch it; other checks were not run on every seed, so a missing id does not mean a miss.", "",
  "| seed | property | what it needs to manifest | caught by (quick tier) | not caught by | strengthening it triggered |",
  "|------|----------|---------------------------|------------------------|---------------|----------------------------|"]
 for name, m in rows:
